@@ -215,6 +215,22 @@ class Shadow:
         if float(kernel.tree_dist.prior.alpha) != float(alpha):
             self.problems.append("%s: alpha argument %r differs from the kernel's current alpha %r" % (name, alpha, kernel.tree_dist.prior.alpha))
         ok, worst, why = self._cmp_views(self._dist_view(res), self._dist_view(ref))
+        # every candidate handed out carries log_p / log_p_one: they must be what the joint distribution gives for that tree
+        # NOW (at the kernel's current concentration), however the candidate was obtained (a memo that lives outside the
+        # decorated functions - on the kernel, on a particle - is not seen by the comparison with the undecorated function)
+        if ok:
+            td = kernel.tree_dist
+            for h in list(res._log_p.keys()):
+                try:
+                    now = td.compute_both_log_p_and_log_p_one(h.tree)
+                    dh = max(abs(float(h.log_p) - float(now[0])), abs(float(h.log_p_one) - float(now[1])))
+                except Exception as e:  # noqa: BLE001
+                    self.problems.append("%s: candidate densities could not be recomputed: %r" % (name, e))
+                    break
+                st["holders_checked"] = st.get("holders_checked", 0) + 1
+                if not dh <= TOL * max(1.0, abs(float(now[0]))):
+                    ok, worst, why = False, dh, "a candidate's stored log_p / log_p_one differ from the joint distribution's value for its tree at the current concentration"
+                    break
         if hit:
             st["hits"] += 1
             st["hits_compared"] += 1
